@@ -105,6 +105,14 @@ type Chain struct {
 	// Headers keeps every signed header by height (for light-client updates to older heights).
 	Headers map[int64]*xibctmtypes.Header
 
+	// DB is the application database (Restart re-opens the application over it).
+	DB dbm.DB
+	// AfterCommit, when non-nil, runs between the Commit of a block and the BeginBlock of the next one (the only point at
+	// which a node process may stop and start again); PreDeliver runs before every DeliverTx with the raw transaction
+	// (a node may simulate or CheckTx a transaction any number of times before it sees it in a block).
+	AfterCommit func(c *Chain)
+	PreDeliver  func(c *Chain, bz []byte)
+
 	// Trace, when non-nil, receives one line per ABCI response (used by the determinism check).
 	Trace func(line string)
 	// RawTrace, when non-nil, receives the full log and events of every DeliverTx (debugging aid).
@@ -249,6 +257,7 @@ func NewChain(chainID string, o ChainOpts) *Chain {
 		Accounts: accts,
 		Now:      o.Start,
 		Headers:  map[int64]*xibctmtypes.Header{},
+		DB:       db,
 	}
 	// block 1: set the XIBC chain name (keeper + packet contract), as the chain's own tooling does
 	c.Header = tmproto.Header{
@@ -278,6 +287,9 @@ func (c *Chain) Commit(dt time.Duration) {
 		c.Trace(fmt.Sprintf("%s h=%d endblock events=%s valupdates=%d", c.ChainID, c.Header.Height, eventsDigest(eb.Events), len(eb.ValidatorUpdates)))
 		c.Trace(fmt.Sprintf("%s h=%d commit apphash=%x", c.ChainID, c.Header.Height, cm.Data))
 	}
+	if c.AfterCommit != nil {
+		c.AfterCommit(c)
+	}
 	c.LastHeader = c.signedHeader(c.Header)
 	c.Headers[c.Header.Height] = c.LastHeader
 	c.Now = c.Now.Add(dt).UTC()
@@ -294,6 +306,14 @@ func (c *Chain) Commit(dt time.Duration) {
 	if c.Trace != nil {
 		c.Trace(fmt.Sprintf("%s h=%d beginblock events=%s", c.ChainID, c.Header.Height, eventsDigest(bb.Events)))
 	}
+}
+
+// Restart stops the node process and starts it again: a new application object is opened over the same database and
+// loads the last committed version, as a node does after a crash-free stop. Only call from AfterCommit (no block open).
+func (c *Chain) Restart() {
+	encCdc := encoding.MakeConfig(app.ModuleBasics)
+	c.App = app.NewTeleport(log.NewNopLogger(), c.DB, nil, true, map[int64]bool{}, app.DefaultNodeHome, 5, encCdc, simapp.EmptyAppOptions{})
+	c.TxConfig = encCdc.TxConfig
 }
 
 // eventsDigest hashes events in order (type, attribute keys and values).
@@ -405,6 +425,9 @@ func (c *Chain) BuildTx(acct Account, msgs ...sdk.Msg) []byte {
 
 // DeliverRaw delivers raw tx bytes into the open block.
 func (c *Chain) DeliverRaw(bz []byte) TxResult {
+	if c.PreDeliver != nil {
+		c.PreDeliver(c, bz)
+	}
 	res := c.App.BaseApp.DeliverTx(abci.RequestDeliverTx{Tx: bz})
 	if c.Trace != nil {
 		c.Trace(fmt.Sprintf("%s h=%d delivertx tx=%x code=%d codespace=%s gas=%d/%d data=%x log=%x events=%s", c.ChainID, c.Header.Height, tmhash.Sum(bz)[:6],
